@@ -153,7 +153,8 @@ func validateJSON(input any) ([]byte, error) {
 			return nil, errInvalidJSON
 		}
 
-		return j, nil
+		// matchers replace values in place, work on a copy of the caller's slice
+		return append([]byte(nil), j...), nil
 	default:
 		return json.Marshal(input)
 	}
